@@ -439,6 +439,7 @@ impl Property for C04 {
             canonical_policy: false,
             benign: true,
             faults: vec![],
+            original_btor2: None,
         };
         let obs = scn.execute(false);
         obs.account(acc);
